@@ -309,33 +309,116 @@ def classify(s):
     return sorted(set(lab))
 
 
+# independent python rendering of the property's accounting, used only to word signatures (the judge is the extracted spec)
+def py_trace(t):
+    """real test -> symbolic outcome list of its child"""
+    stops, failed, fate = [], 0, None
+
+    def acts(l, plugin):
+        nonlocal failed, fate
+        for a in l:
+            k = a.split()
+            if k[0] == ":r":
+                sg = int(k[1], 16)
+                if sg in STOP:
+                    stops.append(":s %x" % sg)
+                elif sg not in IGN:
+                    fate = ":k %x 0" % sg
+                    return False
+            elif k[0] == ":e":
+                fate = ":x %x" % int(k[1], 16)
+                return False
+            else:
+                failed += 1
+                if not plugin:
+                    return True       # leaves the phase
+        return None
+    r = acts(t[1], True)
+    if fate is None:
+        r = acts(t[2], False)
+    if fate is None and r is not True:
+        acts(t[3], False)
+    if fate is None:
+        acts(t[4], False)
+    if fate is None:
+        acts(t[5], True)
+    if fate is None:
+        fate = ":x 1" if failed else ":x 0"
+    evs = stops + [fate]
+    out = []
+    for i in t[6]:
+        if i == ":re":
+            if evs:
+                out.append(evs.pop(0))
+        else:
+            out.append(i)
+    return out + evs
+
+
+def py_expect(outs, tol):
+    f = c = 0
+    seen = []
+    for o in outs:
+        c += 1
+        k = o.split()[0]
+        seen.append(k if k != ":x" else (":x0" if int(o.split()[1], 16) == 0 else ":x"))
+        if k == ":er":
+            return f + 1, c, False, seen
+        if k == ":ei":
+            if tol == 0:
+                return f + 1, c, False, seen
+            tol -= 1
+        elif k == ":x":
+            return f + (0 if int(o.split()[1], 16) == 0 else 1), c, True, seen
+        elif k == ":k":
+            return f + 1, c, True, seen
+        elif k == ":s":
+            f += 1
+    return f, c, False, seen
+
+
 def signature(s, o):
     if o.startswith("!"):
         return "crash " + o[:50]
     try:
+        tol = source_bound()
         all_sep, tests = parse(s)
-        kinds = []
-        for t in tests:
-            if t[0] == "scr":
-                kinds += ["scr" + x.split()[0] for x in t[2]] or ["scr"]
-                if not t[1]:
-                    kinds.append("forkerr")
-            elif t[0] == "real":
-                for p in t[1:6]:
-                    for a in p:
-                        k = a.split()
-                        if k[0] == ":r":
-                            sg = int(k[1], 16)
-                            kinds.append("raise-" + ("term" if sg in TERM else "stop" if sg in STOP else "ign"))
-                        else:
-                            kinds.append("real" + k[0])
-                kinds += ["inj" + x for x in t[6]]
+        toks = o.split()
+        i = 0
+        late = toks[-1] == "1"
+        earlier = False
+        for n, t in enumerate(tests):
+            if toks[i] != ":t":
+                return "late " * late + "test %s missing from the record" % t[0]
+            started, nf = toks[i + 1], int(toks[i + 2], 16)
+            j = i + 3
+            for _ in range(nf):
+                j += 2 if toks[j] == ":k" else 1
+            calls, lost = int(toks[j], 16), toks[j + 2]
+            i = j + 3
+            if t[0] == "plain" and not all_sep:
+                want, seen = (t[1], 0, True), ["in-process"]
+            elif t[0] == "scr" and not t[1]:
+                want, seen = (1, 0, True), ["fork-error"]
             else:
-                kinds.append("plain%d" % t[1])
-        late = o.split()[-1] == "1"
-        return ("late " if late else "") + " ".join(sorted(set(kinds)))[:120]
-    except Exception:
-        return "malformed"
+                outs = t[2] + [":x 0"] if t[0] == "scr" else py_trace(t if t[0] == "real" else ["real", [], [], [":f"] if t[1] else [], [], [], []])
+                f, c, reaped, seen = py_expect(outs, tol)
+                want = (f, c, reaped or t[0] == "scr")
+            ne = seen.count(":ei")
+            shape = "%s[%s%s]%s" % (t[0], "ei*%s " % ("<=tol" if ne <= tol else ">tol") if ne else "", " ".join(x for x in seen if x != ":ei"),
+                                   " after earlier failures" if earlier else "")
+            if started != "1":
+                return "late " * late + shape + " not started"
+            if nf != want[0]:
+                return "late " * late + shape + " failures %d want %d" % (nf, want[0])
+            if calls != want[1]:
+                return "late " * late + shape + " waits %d want %d" % (calls, want[1])
+            if want[2] and lost == "1":
+                return "late " * late + shape + " child left behind"
+            earlier = earlier or nf > 0
+        return "late " * late + "totals / overall verdict / run count"
+    except Exception as e:
+        return "malformed observation"
 
 
 def shrink(s):
